@@ -143,7 +143,7 @@ class Writer:
             base = self.t_enum(ename, lits, kind=22 if (len(lits) == 2 and self.rng.random() < 0.5) else 23)
             if tname == ename:
                 return base
-            return self.add_type(("ealias", tname, ename), bytes([34]) + uleb(self.sid(tname)) + uleb(base) + bytes([23, 0, len(lits) - 1]))
+            return self.add_type(("ealias", tname, ename, tuple(lits)), bytes([34]) + uleb(self.sid(tname)) + uleb(base) + bytes([23, 0, len(lits) - 1]))
         if k == "I":
             if t[1] == "integer":
                 return self.t_integer()
